@@ -33,5 +33,13 @@ check("C17", "exploration",
       "(result, exact callback trace incl. short-circuit, input unchanged). ~10^5 calls per quick run.",
       "Trusted: my python specification of each function (argument order of foldl/reduce taken from the implementation's own use in sum/product).",
       "model-based oracle + callback trace specification over enumerated inputs under ASan", "DESIGN.md section 5 C17")
+check("C18", "exploration",
+      "20k/600k value trees built through the C++ API (strings over all 256 byte values, ints at 2^31/2^53/2^63) must survive "
+      "from_json(to_json(v)); 50k/1M JSON texts (valid, mutated, truncated, random, hand-written hostile numbers/escapes) must be rejected "
+      "with an exception or accepted with from_json(to_json(v1)) == v1 (structural comparer, floats within 1e-6); nesting probes up to 10^5/10^6 "
+      "also at the default 8 MiB stack in an uninstrumented build. ASan/UBSan/assertions with the input terminator poisoned; signals, terminate "
+      "and watchdog expiry are attributed per input by the fork runner.",
+      "Trusted: the harness's structural comparer; ASan for over-reads (terminator poisoned, exact-size heap buffer).",
+      "sanitizer-instrumented execution + round-trip oracle over generated values and mutated texts", "DESIGN.md section 5 C18")
 for _p in ["C%02d" % i for i in range(2, 21) if "C%02d" % i not in CHECKS]:
     NA[_p] = "check not implemented yet in this revision (work in progress, see DESIGN.md); nothing is claimed"
